@@ -407,6 +407,38 @@ func boolEdges(cond ssa.Value) (tru, fls []Edge) {
 				if x.Op == token.NOT {
 					walk(x, !neg)
 				}
+			case *ssa.Phi:
+				// value-context short circuit: phi [false, v] is `_ && v` (true ⇒ v true),
+				// phi [true, v] is `_ || v` (false ⇒ v false)
+				allFalse, allTrue := true, true
+				for _, e := range x.Edges {
+					if e == v {
+						continue
+					}
+					k, ok := e.(*ssa.Const)
+					if !ok || k.Value == nil {
+						allFalse, allTrue = false, false
+						continue
+					}
+					if k.Value.String() == "true" {
+						allFalse = false
+					} else {
+						allTrue = false
+					}
+				}
+				if allFalse == allTrue {
+					continue
+				}
+				t2, f2 := boolEdges(x)
+				if neg {
+					t2, f2 = f2, t2
+					allFalse, allTrue = allTrue, allFalse
+				}
+				if allFalse {
+					tru = append(tru, t2...)
+				} else {
+					fls = append(fls, f2...)
+				}
 			}
 		}
 	}
